@@ -996,11 +996,104 @@ static void c08_streams(const std::string &pat, size_t k, Bytes &rq, Bytes &rs) 
     else { rq = "GET / HTTP/1.1\r\nHost: a\r\n\r\n"; rs = ok; }
 }
 
+// Generated pumps: a unit string repeated k times at an insertion site of an otherwise ordinary exchange. The fixed dictionary
+// above names the constructs the statement lists; this family covers "repeating any construct" by enumeration of (site x unit).
+static const char *C08_UNITS[] = {"a", " ", "\t", ",", ";", "=", "&", "%", "%2", "%u", "%u00", "%41", "+", "/", "/.", "/../", "//", "\\", ":", "\"", "\\\"", "a=b&", "a=b; ", "x, ",
+                                  "gzip, ", "chunked, ", "\x80", "\xc0\xaf", "\xef\xbc\x8f", "--", "--B", "-", "(", "<", "[", "a b", "1", "0", "=&", "; ", ", ", "%%", "a=", "&="};
+static const int C08_NUNIT = (int) (sizeof C08_UNITS / sizeof *C08_UNITS);
+// line units for the sites that repeat whole lines (the line end is the site's)
+static const char *C08_LINES[] = {"a: b", " a", "\ta", "a", "a:", ":a", ":", "a b", "a : b", "1", "0", "1;a=b", "-", " ", "", "a: b, c", "a:b:c", "Content-Length: 0", "Host: a", "Cookie: a=b",
+                                  "Transfer-Encoding: chunked", "Content-Encoding: gzip", "Connection: close", "a\rb", "\x80: b", "a: \x80", "HTTP/1.1", "HTTP/1.1 100 Continue", "GET", "--B", "--", "Content-Disposition: form-data", "Content-Type: text/plain"};
+static const int C08_NLINE = (int) (sizeof C08_LINES / sizeof *C08_LINES);
+enum { C08_SITE_REQ_METHOD, C08_SITE_REQ_PATH, C08_SITE_REQ_QUERY, C08_SITE_REQ_PROTO, C08_SITE_REQ_HDR_VALUE, C08_SITE_REQ_HDR_NAME, C08_SITE_REQ_COOKIE, C08_SITE_REQ_AUTH_DIGEST, C08_SITE_REQ_AUTH_BASIC,
+       C08_SITE_REQ_CTYPE, C08_SITE_REQ_TE, C08_SITE_REQ_HOST, C08_SITE_REQ_URLENC_BODY, C08_SITE_REQ_MPART_DATA, C08_SITE_REQ_MPART_CD, C08_SITE_RES_REASON, C08_SITE_RES_HDR_VALUE, C08_SITE_RES_CE, C08_SITE_RES_TE,
+       C08_SITE_RES_CL, C08_SITE_INLINE_COUNT,
+       // line sites
+       C08_SITE_REQ_HDR_LINES = C08_SITE_INLINE_COUNT, C08_SITE_REQ_CHUNK_LINES, C08_SITE_REQ_TRAILER_LINES, C08_SITE_REQ_MPART_HDR_LINES, C08_SITE_REQ_MPART_BODY_LINES, C08_SITE_REQ_BEFORE_LINES, C08_SITE_REQ_AFTER_LINES,
+       C08_SITE_RES_HDR_LINES, C08_SITE_RES_CHUNK_LINES, C08_SITE_RES_TRAILER_LINES, C08_SITE_RES_BEFORE_LINES, C08_SITE_RES_AFTER_LINES, C08_SITE_RES_INTERIM_HDR_LINES, C08_SITE_COUNT };
+static const char *C08_SITE_NAMES[] = {"req_method", "req_path", "req_query", "req_proto", "req_hdr_value", "req_hdr_name", "req_cookie", "req_auth_digest", "req_auth_basic", "req_ctype", "req_te", "req_host",
+                                       "req_urlenc_body", "req_mpart_data", "req_mpart_cd", "res_reason", "res_hdr_value", "res_ce", "res_te", "res_cl",
+                                       "req_hdr_lines", "req_chunk_lines", "req_trailer_lines", "req_mpart_hdr_lines", "req_mpart_body_lines", "req_before_lines", "req_after_lines",
+                                       "res_hdr_lines", "res_chunk_lines", "res_trailer_lines", "res_before_lines", "res_after_lines", "res_interim_hdr_lines"};
+static const char *C08_EOLS[] = {"\r\n", "\n", "\r"};
+
+static void c08_rnd_streams(int site, int unit, int eol, size_t k, Bytes &rq, Bytes &rs) {
+    rq.clear(); rs.clear();
+    const Bytes okres = "HTTP/1.1 200 OK\r\nContent-Length: 0\r\n\r\n", okreq = "GET / HTTP/1.1\r\nHost: a\r\n\r\n";
+    Bytes pump;
+    if (site < C08_SITE_INLINE_COUNT) {
+        Bytes u = C08_UNITS[unit % C08_NUNIT];
+        // everything that has to fit one line is kept below the default hard field limit (18000): above it the stream fails by design
+        bool in_line = site != C08_SITE_REQ_URLENC_BODY && site != C08_SITE_REQ_MPART_DATA;
+        size_t n = in_line ? std::min<size_t>(k, 16000 / u.size()) : k;
+        for (size_t i = 0; i < n; i++) pump += u;
+    } else {
+        Bytes u = C08_LINES[unit % C08_NLINE]; u += C08_EOLS[eol % 3];
+        for (size_t i = 0; i < k; i++) pump += u;
+    }
+    auto with_body = [&](const Bytes &head, const Bytes &body) { return head + strfmt("Content-Length: %zu\r\n\r\n", body.size()) + body; };
+    switch (site) {
+        case C08_SITE_REQ_METHOD: rq = pump + " / HTTP/1.1\r\nHost: a\r\n\r\n"; rs = okres; break;
+        case C08_SITE_REQ_PATH: rq = "GET /" + pump + " HTTP/1.1\r\nHost: a\r\n\r\n"; rs = okres; break;
+        case C08_SITE_REQ_QUERY: rq = "GET /?" + pump + " HTTP/1.1\r\nHost: a\r\n\r\n"; rs = okres; break;
+        case C08_SITE_REQ_PROTO: rq = "GET / HTTP/1.1" + pump + "\r\nHost: a\r\n\r\n"; rs = okres; break;
+        case C08_SITE_REQ_HDR_VALUE: rq = "GET / HTTP/1.1\r\nHost: a\r\nX-V: " + pump + "\r\n\r\n"; rs = okres; break;
+        case C08_SITE_REQ_HDR_NAME: rq = "GET / HTTP/1.1\r\nHost: a\r\nX" + pump + ": v\r\n\r\n"; rs = okres; break;
+        case C08_SITE_REQ_COOKIE: rq = "GET / HTTP/1.1\r\nHost: a\r\nCookie: " + pump + "\r\n\r\n"; rs = okres; break;
+        case C08_SITE_REQ_AUTH_DIGEST: rq = "GET / HTTP/1.1\r\nHost: a\r\nAuthorization: Digest username=\"" + pump + "\r\n\r\n"; rs = okres; break;
+        case C08_SITE_REQ_AUTH_BASIC: rq = "GET / HTTP/1.1\r\nHost: a\r\nAuthorization: Basic " + pump + "\r\n\r\n"; rs = okres; break;
+        case C08_SITE_REQ_CTYPE: rq = with_body("POST / HTTP/1.1\r\nHost: a\r\nContent-Type: multipart/form-data; " + pump + "boundary=B\r\n", "--B\r\nContent-Disposition: form-data; name=\"a\"\r\n\r\nv\r\n--B--\r\n"); rs = okres; break;
+        case C08_SITE_REQ_TE: rq = "POST / HTTP/1.1\r\nHost: a\r\nTransfer-Encoding: " + pump + "chunked\r\n\r\n1\r\na\r\n0\r\n\r\n"; rs = okres; break;
+        case C08_SITE_REQ_HOST: rq = "GET / HTTP/1.1\r\nHost: a" + pump + "\r\n\r\n"; rs = okres; break;
+        case C08_SITE_REQ_URLENC_BODY: rq = with_body("POST / HTTP/1.1\r\nHost: a\r\nContent-Type: application/x-www-form-urlencoded\r\n", pump); rs = okres; break;
+        case C08_SITE_REQ_MPART_DATA: rq = with_body("POST / HTTP/1.1\r\nHost: a\r\nContent-Type: multipart/form-data; boundary=B\r\n", "--B\r\nContent-Disposition: form-data; name=\"a\"\r\n\r\n" + pump + "\r\n--B--\r\n"); rs = okres; break;
+        case C08_SITE_REQ_MPART_CD: rq = with_body("POST / HTTP/1.1\r\nHost: a\r\nContent-Type: multipart/form-data; boundary=B\r\n", "--B\r\nContent-Disposition: form-data; name=\"a" + pump + "\"\r\n\r\nv\r\n--B--\r\n"); rs = okres; break;
+        case C08_SITE_RES_REASON: rq = okreq; rs = "HTTP/1.1 200 " + pump + "\r\nContent-Length: 0\r\n\r\n"; break;
+        case C08_SITE_RES_HDR_VALUE: rq = okreq; rs = "HTTP/1.1 200 OK\r\nContent-Length: 0\r\nX-V: " + pump + "\r\n\r\n"; break;
+        case C08_SITE_RES_CE: rq = okreq; rs = "HTTP/1.1 200 OK\r\nContent-Length: 3\r\nContent-Encoding: " + pump + "\r\n\r\nabc"; break;
+        case C08_SITE_RES_TE: rq = okreq; rs = "HTTP/1.1 200 OK\r\nTransfer-Encoding: " + pump + "chunked\r\n\r\n1\r\na\r\n0\r\n\r\n"; break;
+        case C08_SITE_RES_CL: rq = okreq; rs = "HTTP/1.1 200 OK\r\nContent-Length: 0" + pump + "\r\n\r\n"; break;
+        case C08_SITE_REQ_HDR_LINES: rq = "GET / HTTP/1.1\r\nHost: a\r\n" + pump + "\r\n"; rs = okres; break;
+        case C08_SITE_REQ_CHUNK_LINES: rq = "POST / HTTP/1.1\r\nHost: a\r\nTransfer-Encoding: chunked\r\n\r\n" + pump + "0\r\n\r\n"; rs = okres; break;
+        case C08_SITE_REQ_TRAILER_LINES: rq = "POST / HTTP/1.1\r\nHost: a\r\nTransfer-Encoding: chunked\r\n\r\n1\r\na\r\n0\r\n" + pump + "\r\n"; rs = okres; break;
+        case C08_SITE_REQ_MPART_HDR_LINES: rq = with_body("POST / HTTP/1.1\r\nHost: a\r\nContent-Type: multipart/form-data; boundary=B\r\n", "--B\r\nContent-Disposition: form-data; name=\"a\"\r\n" + pump + "\r\nv\r\n--B--\r\n"); rs = okres; break;
+        case C08_SITE_REQ_MPART_BODY_LINES: rq = with_body("POST / HTTP/1.1\r\nHost: a\r\nContent-Type: multipart/form-data; boundary=B\r\n", "--B\r\nContent-Disposition: form-data; name=\"a\"\r\n\r\n" + pump + "\r\n--B--\r\n"); rs = okres; break;
+        case C08_SITE_REQ_BEFORE_LINES: rq = pump + okreq; rs = okres; break;
+        case C08_SITE_REQ_AFTER_LINES: rq = okreq + pump; rs = okres; break;
+        case C08_SITE_RES_HDR_LINES: rq = okreq; rs = "HTTP/1.1 200 OK\r\nContent-Length: 0\r\n" + pump + "\r\n"; break;
+        case C08_SITE_RES_CHUNK_LINES: rq = okreq; rs = "HTTP/1.1 200 OK\r\nTransfer-Encoding: chunked\r\n\r\n" + pump + "0\r\n\r\n"; break;
+        case C08_SITE_RES_TRAILER_LINES: rq = okreq; rs = "HTTP/1.1 200 OK\r\nTransfer-Encoding: chunked\r\n\r\n1\r\na\r\n0\r\n" + pump + "\r\n"; break;
+        case C08_SITE_RES_BEFORE_LINES: rq = okreq; rs = pump + okres; break;
+        case C08_SITE_RES_AFTER_LINES: rq = okreq; rs = okres + pump; break;
+        case C08_SITE_RES_INTERIM_HDR_LINES: rq = okreq; rs = "HTTP/1.1 100 Continue\r\n" + pump + "\r\n" + okres; break;
+        default: rq = okreq; rs = okres;
+    }
+}
+
+static std::string c08_pattern_name(const Plan &p) {
+    long pat = p.cfg.get("c08_pattern", 0);
+    if (pat < C08_NPAT) return C08_PATTERNS[pat];
+    long site = p.cfg.get("c08_site", 0) % C08_SITE_COUNT;
+    return strfmt("rnd.%s.u%ld%s", C08_SITE_NAMES[site], p.cfg.get("c08_unit", 0), site >= C08_SITE_INLINE_COUNT ? strfmt(".eol%ld", p.cfg.get("c08_eol", 0)).c_str() : "");
+}
+
 static void c08_plan(Rng &rng, Plan &p, uint64_t variant) {
     p.prop = "C08"; p.scenario = "pump";
+    if (variant % 2 == 1) {
+        // generated family: the run index enumerates site x unit (x line end) x delivery
+        uint64_t v = variant / 2;
+        int site = (int) (v % C08_SITE_COUNT); v /= C08_SITE_COUNT;
+        int nunit = site < C08_SITE_INLINE_COUNT ? C08_NUNIT : C08_NLINE;
+        p.cfg.set("c08_pattern", (long) C08_NPAT); p.cfg.set("c08_site", site); p.cfg.set("c08_unit", (long) (v % (uint64_t) nunit)); v /= (uint64_t) nunit;
+        if (site >= C08_SITE_INLINE_COUNT) { p.cfg.set("c08_eol", (long) (v % 3 == 2 ? 2 : v % 3)); v /= 3; }
+        p.cfg.set("c08_delivery", (long) (v % 3));
+        p.scenario = "pump+generated";
+    } else {
+    variant /= 2;
     int pat = (int) (variant % C08_NPAT);
     p.cfg.set("c08_pattern", pat);
     p.cfg.set("c08_delivery", (long) ((variant / C08_NPAT) % 3));   // 0 whole, 1 one byte per call, 2 geometric chunks
+    }
     p.cfg.set("c08_mean", (long) rng.range(2, 40));
     p.cfg.set("personality", (long) rng.below(10));
     p.cfg.set("log_level", 0);   // the message list is the caller's to drain; it is not part of the work bound
@@ -1012,9 +1105,10 @@ static void c08_plan(Rng &rng, Plan &p, uint64_t variant) {
 struct C08Point { size_t k; double ticks, work, ratio; double worst_call; size_t bytes; };
 
 static C08Point c08_measure(const Plan &p, size_t k, RunResult &r) {
-    std::string pat = C08_PATTERNS[p.cfg.get("c08_pattern", 0) % C08_NPAT];
+    std::string pat = c08_pattern_name(p);
     Plan q = p; q.conns.resize(1);
-    c08_streams(pat, k, q.conns[0].stream[0], q.conns[0].stream[1]);
+    if (p.cfg.get("c08_pattern", 0) >= C08_NPAT) c08_rnd_streams((int) (p.cfg.get("c08_site", 0) % C08_SITE_COUNT), (int) p.cfg.get("c08_unit", 0), (int) p.cfg.get("c08_eol", 0), k, q.conns[0].stream[0], q.conns[0].stream[1]);
+    else c08_streams(pat, k, q.conns[0].stream[0], q.conns[0].stream[1]);
     long del = p.cfg.get("c08_delivery", 0);
     Rng rng(p.seed ^ (uint64_t) k);
     for (int d = 0; d < 2; d++) {
@@ -1036,7 +1130,7 @@ static C08Point c08_measure(const Plan &p, size_t k, RunResult &r) {
 }
 
 static void eval_c08(const Plan &p, Verdict &v, Agg *agg) {
-    std::string pat = C08_PATTERNS[p.cfg.get("c08_pattern", 0) % C08_NPAT];
+    std::string pat = c08_pattern_name(p);
     long del = p.cfg.get("c08_delivery", 0);
     size_t kmax = del == 1 ? 4096 : 8192;
     if (getenv("VERIF_TIER") && !strcmp(getenv("VERIF_TIER"), "thorough")) kmax *= 2;
@@ -1050,10 +1144,13 @@ static void eval_c08(const Plan &p, Verdict &v, Agg *agg) {
     v.nontrivial = true;
     const C08Point &lo = pts.front(), &hi = pts.back();
     std::string trace; for (auto &pt : pts) trace += strfmt(" k=%zu:%.1f", pt.k, pt.ratio);
-    if (agg) agg->inc("c08.pattern." + pat);
+    if (agg) { if (p.cfg.get("c08_pattern", 0) >= C08_NPAT) { agg->inc(std::string("c08.generated.site.") + C08_SITE_NAMES[p.cfg.get("c08_site", 0) % C08_SITE_COUNT]); agg->inc("c08.generated.runs"); } else agg->inc("c08.pattern." + pat); }
     if (getenv("VERIF_C08_TRACE")) printf("C08TRACE %s delivery=%ld%s worst_call=%.0f\n", pat.c_str(), del, trace.c_str(), hi.worst_call);
     // (a) work per allowed unit must not grow along the ladder: quadratic behaviour doubles it at every step (x128 over 7 steps)
-    if (hi.ratio > 3.0 * lo.ratio && hi.ratio > 40.0) { v.violated = true; v.oracle = "C08.superlinear." + pat; v.detail = strfmt("delivery=%ld ticks per unit of allowed work:%s", del, trace.c_str()); return; }
+    // ... and it must still be growing at the top of the ladder (>= 1.8x over the last two doublings, i.e. cost ~ k^1.4 or worse):
+    // a curve that climbs from a small start-up figure and flattens out is a constant per unit, which is what the statement allows
+    const C08Point &mid = pts[pts.size() >= 3 ? pts.size() - 3 : 0];
+    if (hi.ratio > 3.0 * lo.ratio && hi.ratio > 40.0 && hi.ratio > 1.8 * mid.ratio) { v.violated = true; v.oracle = "C08.superlinear." + pat; v.detail = strfmt("delivery=%ld ticks per unit of allowed work:%s", del, trace.c_str()); return; }
     // (b) no single call may cost more than a constant per byte given or buffered (constants: 8x the maxima measured on the pinned tree)
     double A = 100.0;
     for (auto &pt : pts) if (pt.worst_call > A * 8) { v.violated = true; v.oracle = "C08.call_cost." + pat; v.detail = strfmt("delivery=%ld k=%zu: %.0f ticks per byte given or buffered in one call", del, pt.k, pt.worst_call); return; }
@@ -1544,7 +1641,7 @@ std::string plan_trigger(const Plan &p) {
         if ((cod == 9 || cod == 10) && body && body->size() < 5) return "c07.short_plain_body_announced_as_compressed";
     }
     if (p.prop == "C08") {
-        std::string pat = C08_PATTERNS[p.cfg.get("c08_pattern", 0) % C08_NPAT];
+        std::string pat = c08_pattern_name(p);
         // many header lines with pairwise distinct names: every line is looked up linearly in the table of all earlier ones
         if (pat == "req_hdr_distinct" || pat == "res_hdr_distinct") return "c08.distinct_header_names";
     }
